@@ -80,6 +80,21 @@ Definition dict_pop (v : jv) (k : str) : res jv :=
   | _ => Err Internal
   end.
 
+(** [d.pop(k, default)] on the mapping the loader returned: the value and the
+    mapping without the key *)
+Definition dict_pop_default (v : jv) (k : str) (d : jv) : res (jv * jv) :=
+  match v with JObj l => Ok (getd k d l, JObj (remove_key k l)) | _ => Err Internal end.
+
+(** [specification.<attribute> = v] on a YAMLSpecification *)
+Definition spec_set_description (v : jv) (sp : spec) : spec :=
+  {| sp_desc := v; sp_env := sp_env sp; sp_study := sp_study sp; sp_globals := sp_globals sp |}.
+Definition spec_set_environment (v : jv) (sp : spec) : spec :=
+  {| sp_desc := sp_desc sp; sp_env := v; sp_study := sp_study sp; sp_globals := sp_globals sp |}.
+Definition spec_set_study (v : jv) (sp : spec) : spec :=
+  {| sp_desc := sp_desc sp; sp_env := sp_env sp; sp_study := v; sp_globals := sp_globals sp |}.
+Definition spec_set_globals (v : jv) (sp : spec) : spec :=
+  {| sp_desc := sp_desc sp; sp_env := sp_env sp; sp_study := sp_study sp; sp_globals := v |}.
+
 (* ------------------------------------------------------------------------- *)
 (** * control flow                                                            *)
 (* ------------------------------------------------------------------------- *)
